@@ -136,8 +136,9 @@ def hist_key(hist_text: str) -> str:
 
 class Inst:
     def __init__(self, name: str, gen: int, phens, devices: List[Tuple[str, str]], cache: int, net, clock: Clock,
-                 periods: Optional[dict] = None, with_action=True, local_only=True, flag_reset=True):
+                 periods: Optional[dict] = None, with_action=True, local_only=True, flag_reset=True, via_setup=False):
         self.name, self.gen, self.phens, self.cache = name, gen, phens, cache
+        self.via_setup = via_setup
         self.net, self.clock = net, clock
         self.exec_log: List = []
         tag = f'{name}{gen}' if gen else name
@@ -145,14 +146,29 @@ class Inst:
         self.phenomena = pl.mk_phenomena(
             phens, action=(lambda n: RecAction('act_' + n, self.exec_log)) if with_action else None,
             datagen=lambda p, h: h.size())
-        ids = CounterGen(tag + 'e')
-        ts = TS()
-        self.receiver = BoboReceiver(BoboValidatorAll(), ids, ts)
-        self.decider = BoboDecider(self.phenomena, ids, CounterGen(tag + 'r'), max_cache=cache)
-        self.producer = BoboProducer(self.phenomena, ids, ts)
-        self.handler = BoboActionHandlerBlocking()
-        self.forwarder = BoboForwarder(self.phenomena, self.handler, ids, ts, local_only=local_only)
-        self.engine = BoboEngine(self.receiver, self.decider, self.producer, self.forwarder)
+        tcp_from_setup = None
+        if via_setup:
+            # the engine (and the distributed component) exactly as BoboSetupSimple / BoboSetupSimpleDistributed wire them:
+            # their identifier generators, validator, memory size and subscriptions (default arguments)
+            from bobocep.setup.simple import BoboSetupSimple, BoboSetupSimpleDistributed
+            self.handler = BoboActionHandlerBlocking()
+            if devices:
+                devs0 = [BoboDevice(addr='127.0.0.1', port=9000 + i, urn=u, id_key=k) for i, (u, k) in enumerate(devices)]
+                self.engine, tcp_from_setup = BoboSetupSimpleDistributed(
+                    phenomena=self.phenomena, handler=self.handler, urn=name, devices=devs0, aes_key=AES_KEY).generate()
+            else:
+                self.engine = BoboSetupSimple(phenomena=self.phenomena, handler=self.handler, urn=name).generate()
+            self.receiver, self.decider = self.engine.receiver, self.engine.decider
+            self.producer, self.forwarder = self.engine.producer, self.engine.forwarder
+        else:
+            ids = CounterGen(tag + 'e')
+            ts = TS()
+            self.receiver = BoboReceiver(BoboValidatorAll(), ids, ts)
+            self.decider = BoboDecider(self.phenomena, ids, CounterGen(tag + 'r'), max_cache=cache)
+            self.producer = BoboProducer(self.phenomena, ids, ts)
+            self.handler = BoboActionHandlerBlocking()
+            self.forwarder = BoboForwarder(self.phenomena, self.handler, ids, ts, local_only=local_only)
+            self.engine = BoboEngine(self.receiver, self.decider, self.producer, self.forwarder)
         self.drec, self.cerec = DecRecorder(), CERecorder()
         self.decider.subscribe(self.drec)
         self.producer.subscribe(self.cerec)
@@ -161,12 +177,15 @@ class Inst:
         self.trace: List[Tuple[str, str]] = []   # (model op line, impl output line)
         self.alive = True
         if devices:
-            devs = [BoboDevice(addr='127.0.0.1', port=9000 + i, urn=u, id_key=k) for i, (u, k) in enumerate(devices)]
-            kw = dict(periods or {})
-            self.tcp = BoboDistributedTCP(urn=name, decider=self.decider, devices=devs,
-                                          crypto=BoboDistributedCryptoAES(AES_KEY), flag_reset=flag_reset, **kw)
-            self.decider.subscribe(self.tcp)
-            self.tcp.subscribe(self.decider)
+            if tcp_from_setup is not None:
+                self.tcp = tcp_from_setup
+            else:
+                devs = [BoboDevice(addr='127.0.0.1', port=9000 + i, urn=u, id_key=k) for i, (u, k) in enumerate(devices)]
+                kw = dict(periods or {})
+                self.tcp = BoboDistributedTCP(urn=name, decider=self.decider, devices=devs,
+                                              crypto=BoboDistributedCryptoAES(AES_KEY), flag_reset=flag_reset, **kw)
+                self.decider.subscribe(self.tcp)
+                self.tcp.subscribe(self.decider)
             self.tcp._running = True
             self.tcp._now = clock.now
             self.tcp._tcp_send = self._send
@@ -308,8 +327,9 @@ class Net:
 
 
 class Cluster:
-    def __init__(self, names, phens, cache=1000, periods=None, with_action=True, clock0=1000):
+    def __init__(self, names, phens, cache=1000, periods=None, with_action=True, clock0=1000, via_setup=False):
         self.names, self.phens, self.cache, self.periods = list(names), phens, cache, periods
+        self.via_setup = via_setup
         self.clock = Clock(clock0)
         self.net = Net()
         self.devices = [(n, 'k' + n) for n in names] if len(names) > 1 else []
@@ -320,7 +340,7 @@ class Cluster:
 
     def _mk(self, n, gen, flag_reset=True):
         return Inst(n, gen, self.phens, self.devices, self.cache, self.net, self.clock, self.periods,
-                    self.with_action, flag_reset=flag_reset)
+                    self.with_action, flag_reset=flag_reset, via_setup=self.via_setup)
 
     def live(self):
         return [i for i in self.insts.values() if i.alive]
